@@ -142,6 +142,13 @@ WARM_TEXT = 'EARLIER SAVE BY THE SAME SAVER'
 
 
 def run_save(case, plan=None, log=None, hooks=None, fs=None, only_warmup=False):
+    if case.get('ctx') == 'handler':
+        # the caller saves from inside an exception handler (an error report, a state dump): an unrelated,
+        # already caught exception is "being handled" (sys.exc_info() is set) for the whole save
+        try:
+            raise LookupError('unrelated and already caught')
+        except LookupError:
+            return run_save(dict(case, ctx=None), plan, log, hooks, fs, only_warmup)
     dest_arg, dest_abs, part_abs = paths(case)
     if fs is None:
         fs = simfs.SimFS(cwd=DIR, umask=case.get('umask', 0o022))
@@ -367,6 +374,8 @@ def gen_workload(rng, faults=False):
         case['dest_name'] = 'n' * (n - 4) + '.txt'
         if name_too_long(case):
             case.pop('part_initial', None)      # nobody can have created a file of that name
+    if rng.random() < 0.06:
+        case['ctx'] = 'handler'     # the save is made while another exception is being handled
     if rng.random() < 0.15:
         case['entry'] = 'class'     # AtomicSaver(...) instead of atomic_save(...)
     if faults and rng.random() < 0.25:
